@@ -157,6 +157,11 @@ def messages():
     # an unqualified element (no default namespace in scope) inside Extensions
     out.append(('forged-unqualified-extension', 'SAMLRequest', 'authn_request',
                 forge.request(env.BASE, extensions='<login_hint>alice@example.org</login_hint><x:y xmlns:x="urn:vp:x"><inner a="1"/></x:y>')))
+    # an XML declaration with the document element right behind it (no line break)
+    out.append(('forged-declaration-no-newline', 'SAMLRequest', 'logout_request',
+                '<?xml version="1.0" encoding="UTF-8"?>' + forge.request(env.BASE, kind='LogoutRequest')))
+    out.append(('forged-declaration-single-quotes-no-newline', 'SAMLRequest', 'logout_request',
+                "<?xml version='1.0' encoding='UTF-8'?>" + forge.request(env.BASE, kind='LogoutRequest').replace('alice', 'a?>b')))
     out.append(('forged-declaration-crlf', 'SAMLRequest', 'logout_request',
                 '<?xml version="1.0"?>\r\n' + forge.request(env.BASE, kind='LogoutRequest').replace('alice', 'x  y\n z')))
     _c['msgs'] = out
@@ -301,6 +306,11 @@ def check_artifact(msg, rs, idx):
     if s.artifact.get(art) != msg:
         return 'artifact-does-not-resolve-to-message'
     info = s.apply_binding(BINDING_ARTIFACT, art, 'https://idp.example/art', rs)
+    # the same towards a destination that has a query of its own: its parameter stays, the artifact is a parameter
+    info2 = s.apply_binding(BINDING_ARTIFACT, art, 'https://idp.example/art?tenant=a%20b', rs)
+    p2 = strict_query(info2['url'].partition('?')[2])
+    if p2 is None or [k for k, _v in p2] != ['tenant', 'SAMLart'] + (['RelayState'] if rs else []) or dict(p2)['tenant'] != 'a b' or dict(p2)['SAMLart'] != art:
+        return 'artifact-url-parameters-created-or-lost:destination-with-query'
     q = info['url'].partition('?')[2]
     params = strict_query(q)
     if params is None:
